@@ -182,3 +182,20 @@ PROPS["C05"] = dict(
     exhaustive_axes="7 low-order encodings x 2 top bits x 32 clamp patterns x masks x {scalarmult, beforenm x2}",
     assumptions=ASSUME_COMMON,
 )
+
+PROPS["C06"] = dict(
+    name="c06", sources=["props/c06.cpp"], engine="rapidcheck + enumerator", libs=["-lrapidcheck"], cflags=["-O2"],
+    builds=[("asan", "native")],
+    builds_thorough=[("asan", "native"), ("asan", "noti"), ("asan", "portable")],
+    level="exploration",
+    rule=("Honest direction: every message length 0..300 (+24 sampled up to 64 KiB) with generated seeds: seed_keypair, sign_detached, sign (combined), Ed25519ph init/update/final_create (message fed in chunks) equal the RFC 8032 "
+          "big-integer model; the signature verifies in detached, combined and pre-hashed form; ph and pure signatures are not interchangeable; sk_to_seed/sk_to_pk consistent; pk_to_curve25519 = (1+y)/(1-y), "
+          "sk_to_curve25519 = clamp(SHA-512(seed)), scalarmult_base(sk_to_curve(sk)) == pk_to_curve(pk). Adversarial direction (rapidcheck, 16000 triples, shrinking; secret scalar known to the harness): S+k*L for "
+          "k=1..15, S with each of the top 4 bits set, R = each of the 8 torsion points and each non-canonical alias (y+p, sign bit on x=0) with S=h*a so the cofactored equation holds, A = torsion point / alias "
+          "with R=s*B,S=s, R+T with matching S and A+T signed with a (both cofactored-valid), single-bit flips of signature / message / key, non-canonical pk aliases y+p, random signatures; a deterministic sweep "
+          "covers all torsion points x aliases as R and as A (pure and ph), every bit of signature, key and a 33-byte message, and every k. Oracle: implication 'library accepts => S<L, pk canonical, decodable and "
+          "not small order, R decodable and not small order, 8(SB-R-hA)=0 over the given bytes' (the converse only for honest signatures); sign_open and verify_detached must agree. "
+          "Non-trivial = adversarial triple; histogram records triples whose predicate fails for exactly one reason."),
+    exhaustive_axes="message lengths 0..300; 8 torsion points x aliases x {R, A} x {pure, ph}; all bit positions of sig/pk/33-byte msg",
+    assumptions=ASSUME_COMMON + ["cofactored-valid R+T / A+T triples may be accepted or rejected (the property states necessary conditions only)"],
+)
